@@ -42,6 +42,7 @@ def sigOfKind (kind : String) : String :=
   if kind = "delegators" then "delegators-order-apphash"
   else if kind = "genesismaps" then "genesis-map-order-apphash"
   else if kind = "unjail" then "unjail-wallclock"
+  else if kind = "unstakequeue" then "unstake-queue-order-apphash"
   else "generic-nondeterminism"
 
 def step (st : St) (pre post : List String) : St × Verdict :=
@@ -86,7 +87,7 @@ def step (st : St) (pre post : List String) : St × Verdict :=
           let codesSame := (r.drop 1).take 3 = (post.drop 1).take 3
           let what := if !codesSame then "DeliverTx results" else if !contentsSame then "state contents" else "app hash only (same contents)"
           let detail := s!"block {h} ({kinds}) run {rep} (wall {wall}) vs run 0 (wall {rwall}): {what} differ: codes {(r.drop 1).take 1} / {(post.drop 1).take 1}, app hash {(r.take 1)} / {(post.take 1)}"
-          if (st.kind = "delegators" || st.kind = "genesismaps") && (!contentsSame || !codesSame) then
+          if (st.kind = "delegators" || st.kind = "genesismaps" || st.kind = "unstakequeue") && (!contentsSame || !codesSame) then
             (st', .propfail "map-order-changes-contents" detail)
           else (st', .propfail (sigOfKind st.kind) detail)
       | some _ => (st, .bad "reference")
